@@ -41,12 +41,29 @@ def gen(rng):
     return {'nobj': nobj, 'reentrant': reentrant, 'threads': threads, 'default_timeout': deft}
 
 
+class AcquireScopedFaults(simrt.FaultPlan):
+    """FaultPlan whose indices count only the OS calls made while the calling thread is inside BaseFileLock.acquire()"""
+
+    def hit(self, kind):
+        import sys
+        f = sys._getframe(1)
+        inside = False
+        while f is not None:
+            if f.f_code.co_name == 'acquire' and f.f_code.co_filename.endswith('filelock.py'):
+                inside = True
+                break
+            f = f.f_back
+        if not inside:
+            return False
+        return super().hit(kind)
+
+
 class FlockHarness:
     def __init__(self, F, path):
         self.F = F
         self.path = path
 
-    def run(self, scen, strategy, probes=False, delays=None):
+    def run(self, scen, strategy, probes=False, delays=None, faults=None):
         F = self.F
         path = self.path
 
@@ -60,6 +77,12 @@ class FlockHarness:
             objs = [F.FileLock(path, timeout=scen['default_timeout'], reentrant=scen['reentrant'])
                     for _ in range(scen['nobj'])]
             occ = [0]
+            plan = None
+            if faults:
+                # OSError injected at the n-th open / flock / close that happens *inside an acquire()* (any thread's)
+                plan = AcquireScopedFaults(faults)
+                simrt.OSS[0].plan = plan
+                s.fault_plan = plan
 
             def section(name, o, rd):
                 occ[0] += 1
@@ -84,110 +107,119 @@ class FlockHarness:
                     if spec['start']:
                         s.sleep(spec['start'])
                     for rd in spec['rounds']:
-                        o = objs[rd['obj']]
-                        mode = rd['mode']
-                        emit('try', name, rd['obj'], mode)
-                        if mode == 'stale':
-                            # a private object whose quick attempt fails under contention lives on for a while and
-                            # is dropped later, perhaps while somebody else holds the lock
-                            tmp = F.FileLock(path, reentrant=scen['reentrant'])
-                            emit('t_call', name, 'nb', 0)
-                            got = tmp.acquire(blocking=False) if rd['nest'] or not scen['reentrant'] else tmp.acquire(timeout=0)
-                            emit('t_ret', name, got)
-                            if got is True:
-                                section(name, tmp, dict(rd, nest=False))
-                                tmp.release()
-                            else:
-                                emit('refused', name, rd['obj'], mode, got)
-                                s.sleep(rd['tau'])
-                            s.yield_point('drop')
-                            del tmp
-                            emit('dropped', name, got)
-                            continue
-                        if mode == 'force':
-                            got = o.acquire()
-                            if got is True:
-                                if rd['nest']:
-                                    emit('nested', name, o.acquire())
-                                section(name, o, dict(rd, nest=False))
-                                o.release(force=True)       # gives up every level at once
-                            else:
-                                emit('refused', name, rd['obj'], mode, got)
-                            continue
-                        if mode == 'abandon':
-                            tmp = F.FileLock(path, reentrant=scen['reentrant'])
-                            emit('t_call', name, 'timed', rd['tau'])
-                            got = tmp.acquire(timeout=rd['tau'])
-                            emit('t_ret', name, got)
-                            if got is True:
-                                section(name, tmp, dict(rd, nest=False))
-                            else:
-                                emit('refused', name, rd['obj'], mode, got)
-                            emit('abandoned', name, got)
-                            del tmp                # __del__ gives the lock back
-                            continue
-                        if mode in ('ctx', 'ctxnb'):
-                            emit('t_call', name, 'timed' if mode == 'ctx' else 'nb', rd['tau'] if mode == 'ctx' else 0)
-                            try:
-                                with (o.acquire_ctx(timeout=rd['tau']) if mode == 'ctx'
-                                      else o.acquire_ctx(blocking=False)):
-                                    emit('t_ret', name, True)
-                                    section(name, o, rd)
-                            except TimeoutError:
-                                emit('t_ret', name, False)
-                                emit('refused', name, rd['obj'], mode)
-                            continue
-                        if mode == 'nestraise' and not scen['reentrant']:
-                            mode = 'with'
-                        if mode == 'nestraise':
-                            # a nested block of the same reentrant lock is left by an exception that the outer block handles:
-                            # the outer level is still held afterwards
-                            try:
-                                with o:
-                                    try:
-                                        if rd['nest']:
-                                            with o:
-                                                raise HarnessError('inner block fails')
-                                        else:
-                                            with o.acquire_ctx(timeout=rd['tau']):
-                                                raise HarnessError('inner block fails')
-                                    except HarnessError:
-                                        emit('inner_block_failed', name)
+                        try:
+                            o = objs[rd['obj']]
+                            mode = rd['mode']
+                            emit('try', name, rd['obj'], mode)
+                            if mode == 'stale':
+                                # a private object whose quick attempt fails under contention lives on for a while and
+                                # is dropped later, perhaps while somebody else holds the lock
+                                tmp = F.FileLock(path, reentrant=scen['reentrant'])
+                                emit('t_call', name, 'nb', 0)
+                                got = tmp.acquire(blocking=False) if rd['nest'] or not scen['reentrant'] else tmp.acquire(timeout=0)
+                                emit('t_ret', name, got)
+                                if got is True:
+                                    section(name, tmp, dict(rd, nest=False))
+                                    tmp.release()
+                                else:
+                                    emit('refused', name, rd['obj'], mode, got)
+                                    s.sleep(rd['tau'])
+                                s.yield_point('drop')
+                                del tmp
+                                emit('dropped', name, got)
+                                continue
+                            if mode == 'force':
+                                got = o.acquire()
+                                if got is True:
+                                    if rd['nest']:
+                                        emit('nested', name, o.acquire())
                                     section(name, o, dict(rd, nest=False))
-                            except TimeoutError:
-                                emit('refused', name, rd['obj'], mode)
-                            continue
-                        if mode == 'with':
-                            try:
-                                with o:
-                                    section(name, o, rd)
-                            except TimeoutError:      # only possible with a finite default timeout
-                                emit('refused', name, rd['obj'], mode)
-                            continue
-                        if mode == 'acq':
-                            got = o.acquire()
-                        elif mode == 'nb':
-                            emit('t_call', name, 'nb', 0)
-                            got = o.acquire(blocking=False)
-                            emit('t_ret', name, got)
-                        elif mode == 'timed':
-                            emit('t_call', name, 'timed', rd['tau'])
-                            got = o.acquire(timeout=rd['tau'])
-                            emit('t_ret', name, got)
-                        else:
-                            emit('t_call', name, 'timed', 0)
-                            got = o.acquire(timeout=0)
-                            emit('t_ret', name, got)
-                        if got is True:
-                            section(name, o, rd)
-                            o.release()
-                        else:
-                            emit('refused', name, rd['obj'], mode, got)
+                                    o.release(force=True)       # gives up every level at once
+                                else:
+                                    emit('refused', name, rd['obj'], mode, got)
+                                continue
+                            if mode == 'abandon':
+                                tmp = F.FileLock(path, reentrant=scen['reentrant'])
+                                emit('t_call', name, 'timed', rd['tau'])
+                                got = tmp.acquire(timeout=rd['tau'])
+                                emit('t_ret', name, got)
+                                if got is True:
+                                    section(name, tmp, dict(rd, nest=False))
+                                else:
+                                    emit('refused', name, rd['obj'], mode, got)
+                                emit('abandoned', name, got)
+                                del tmp                # __del__ gives the lock back
+                                continue
+                            if mode in ('ctx', 'ctxnb'):
+                                emit('t_call', name, 'timed' if mode == 'ctx' else 'nb', rd['tau'] if mode == 'ctx' else 0)
+                                try:
+                                    with (o.acquire_ctx(timeout=rd['tau']) if mode == 'ctx'
+                                          else o.acquire_ctx(blocking=False)):
+                                        emit('t_ret', name, True)
+                                        section(name, o, rd)
+                                except TimeoutError:
+                                    emit('t_ret', name, False)
+                                    emit('refused', name, rd['obj'], mode)
+                                continue
+                            if mode == 'nestraise' and not scen['reentrant']:
+                                mode = 'with'
+                            if mode == 'nestraise':
+                                # a nested block of the same reentrant lock is left by an exception that the outer block handles:
+                                # the outer level is still held afterwards
+                                try:
+                                    with o:
+                                        try:
+                                            if rd['nest']:
+                                                with o:
+                                                    raise HarnessError('inner block fails')
+                                            else:
+                                                with o.acquire_ctx(timeout=rd['tau']):
+                                                    raise HarnessError('inner block fails')
+                                        except HarnessError:
+                                            emit('inner_block_failed', name)
+                                        section(name, o, dict(rd, nest=False))
+                                except TimeoutError:
+                                    emit('refused', name, rd['obj'], mode)
+                                continue
+                            if mode == 'with':
+                                try:
+                                    with o:
+                                        section(name, o, rd)
+                                except TimeoutError:      # only possible with a finite default timeout
+                                    emit('refused', name, rd['obj'], mode)
+                                continue
+                            if mode == 'acq':
+                                got = o.acquire()
+                            elif mode == 'nb':
+                                emit('t_call', name, 'nb', 0)
+                                got = o.acquire(blocking=False)
+                                emit('t_ret', name, got)
+                            elif mode == 'timed':
+                                emit('t_call', name, 'timed', rd['tau'])
+                                got = o.acquire(timeout=rd['tau'])
+                                emit('t_ret', name, got)
+                            else:
+                                emit('t_call', name, 'timed', 0)
+                                got = o.acquire(timeout=0)
+                                emit('t_ret', name, got)
+                            if got is True:
+                                section(name, o, rd)
+                                o.release()
+                            else:
+                                emit('refused', name, rd['obj'], mode, got)
+                        except OSError as e:
+                            # (only with injected faults: the acquire of this round failed underneath; the thread holds nothing)
+                            if plan is None or not plan.fired:
+                                raise
+                            emit('acquire_oserror', name, rd['obj'], rd['mode'], repr(e)[:60])
                 return body
 
             ths = [s.spawn(worker(i, spec), f'W{i}') for i, spec in enumerate(scen['threads'])]
             if probes:
                 s.block(lambda: all(t.st == simrt.DONE for t in ths), None, 'main-join')
+                if plan is not None:
+                    emit('faults_fired', list(plan.fired))
+                    plan.faults = set()        # the residue probes run fault-free
                 emit('all_released', [bool(o.is_locked) for o in objs], len(simrt.OSS[0].open_fds))
 
                 def prober():
